@@ -61,6 +61,9 @@ pub fn desc_family() -> Vec<D> {
     tl.push(T::MultiA(1, vec!["A".into(), "B".into()]));
     tl.push(T::MultiA(2, vec!["A".into(), "B".into()]));
     tl.push(T::MultiA(1, vec!["A".into(), "B".into(), "C".into()]));
+    // leaves without any key (key iterators have to step over them)
+    tl.push(T::Older(5));
+    tl.push(T::Sha256("H".into()));
     for n in 1..=3usize {
         for sh in Shape::all(n) {
             let depths = sh.depths();
@@ -72,7 +75,7 @@ pub fn desc_family() -> Vec<D> {
                     ls.push((*d, tl[code % tl.len()].clone()));
                     code /= tl.len();
                 }
-                if n == 3 && !(ls[0].1 == tl[0] || ls[1].1 == tl[1]) {
+                if n == 3 && !(ls[0].1 == tl[0] || ls[1].1 == tl[1] || ls.iter().any(|l| l.1.keys().is_empty())) {
                     continue;
                 }
                 out.push(D::Tr("I".into(), ls.clone()));
